@@ -111,7 +111,7 @@ func runC07(c *core.Ctx) {
 		if root.kind != "AfterFunc" {
 			continue
 		}
-		for _, f := range core.WithAnon(root.fn) {
+		for _, f := range calleesWithin(p, root.fn, 2) {
 			core.AllInstrs(f, func(in ssa.Instruction) {
 				if hcIface == nil || !ifaceInvoke(in, hcIface, "Trigger", "Write") {
 					return
